@@ -256,10 +256,13 @@ class ConvexSpheropolygon(Shape2D):
                 phi += 2 * np.pi
             a = 1
             b = -2 * norm_v * np.cos(angles[indices] - phi)
-            c = norm_v**2 - self.radius**2
-            # With a vanishing rounding radius the discriminant is zero at the vertex
-            # direction and can come out slightly negative through rounding.
-            discriminant = np.maximum(b**2 - 4 * a * c, 0)
+            # With c = norm_v**2 - radius**2 the discriminant is
+            # b**2 - 4*a*c = 4 * (radius**2 - (norm_v * sin(angle - phi))**2). Written this
+            # way it does not cancel: with a vanishing rounding radius the discriminant is
+            # zero at the vertex direction, and rounding in b**2 - 4*a*c left a residual
+            # there that cost half of the digits (or went slightly negative).
+            sine = np.sin(angles[indices] - phi)
+            discriminant = np.maximum(4 * (self.radius**2 - (norm_v * sine) ** 2), 0)
             kernel[indices] = (-b + np.sqrt(discriminant)) / (2 * a)
 
         return kernel
